@@ -52,7 +52,13 @@ Not seen (stated limitation): mutation through a local alias of an attribute
 """
 import ast
 
-from harness.translate import TranslateError
+
+
+class TranslateError(Exception):
+    """source outside the analysed fragment (=> `translate.regenerate` reports 'error: ...' => tie broken).
+    Defined here (not imported from harness.translate) so that this module can be imported on its own:
+    harness.translate loads the plugins, which import this module."""
+
 
 U, N, F, L = 'U', 'N', 'F', 'L'
 FU = frozenset([U])
@@ -845,3 +851,143 @@ def diagnose(core, ctx, tag, lean_text):
             print('effect tables of the current source: %s: %s' % (m.group(1), m.group(2).strip()[:400]))
     if not found:
         ctx.notes.append('effect-table diagnosis produced no output: %s' % out[-400:])
+
+
+# ---------------------------------------------------------------------- self test of the analysis
+_SELFTEST_SRC = '''
+class A:
+    def __init__(self):
+        self._x = 0
+        self._c = None
+        self._d = None
+        self._e = self._f = None
+    def _wipe(self):
+        self._c = None
+    def set_x(self, v):
+        self._x = v
+        self._wipe()
+    def set_x_cond(self, v):
+        self._x = v
+        if v:
+            self._c = None
+    def set_x_early(self, v):
+        self._x = v
+        if v is None:
+            return
+        self._c = None
+    def set_x_raise(self, v):
+        if v < 0:
+            raise ValueError("no")
+        self._x = v
+        self._c, self._d = None, None
+    def set_chain(self):
+        self._c = self._d = None
+    @property
+    def c(self):
+        if self._c is None:
+            self._c = self._x + 1
+        return self._c
+    @property
+    def d(self):
+        if self._d is not None:
+            return self._d
+        self._d = self.c * 2
+        return self._d
+    @property
+    def x(self):
+        return self._x
+    @x.setter
+    def x(self, v):
+        self.set_x(v)
+    def via_setter(self, v):
+        self.x = v
+    def loop(self, n):
+        for i in range(n):
+            self._e = i
+        while n:
+            n -= 1
+            if n == 3:
+                break
+            self._f = None
+    def inplace(self):
+        self._x[0] = 1
+    def tryit(self, v):
+        old = self._x
+        self._x = v
+        try:
+            self.set_x_raise(v)
+        except Exception:
+            self._x = old
+            raise
+    def reader(self):
+        return self.d + self._e
+    def escape(self):
+        return helper(self)
+
+class B(A):
+    def __init__(self):
+        super().__init__()
+        self._g = None
+    def set_x(self, v):
+        A.set_x(self, v)
+        self._g = None
+    def _wipe(self):
+        super()._wipe()
+        self._d = None
+'''
+
+
+def selftest():
+    """the abstract interpretation on a synthetic class chain with known answers (run by the plugins on every
+    regeneration: a change of the analysis that alters its meaning is reported as a broken tie)"""
+    tree = ast.parse(_SELFTEST_SRC)
+    an = Analyzer([n for n in tree.body if isinstance(n, ast.ClassDef)])
+
+    def row(cls, name):
+        c, m = an.lookup(cls, name)
+        if m.kind == 'property':
+            fn, dc = (m.setter, m.setter_cls) if name.endswith('!') else (m.getter, m.getter_cls)
+        else:
+            fn, dc = m.fn, c
+        st, reads = an.entry(cls, dc, fn)
+        r = an.classify(st)
+        return r['clears'], r['assigns'], r['mayWrite'], r['fills'], sorted(reads)
+
+    def setter(cls, name):
+        c, m = an.lookup(cls, name)
+        st, reads = an.entry(cls, m.setter_cls, m.setter)
+        r = an.classify(st)
+        return r['clears'], r['assigns'], r['mayWrite'], r['fills'], sorted(reads)
+
+    want = [
+        (('A', 'set_x'), (['_c'], ['_x'], [], [], [])),
+        (('A', 'set_x_cond'), ([], ['_x'], ['_c'], [], [])),
+        (('A', 'set_x_early'), ([], ['_x'], ['_c'], [], [])),
+        (('A', 'set_x_raise'), (['_c', '_d'], ['_x'], [], [], [])),
+        (('A', 'set_chain'), (['_c', '_d'], [], [], [], [])),
+        (('A', 'c'), ([], [], [], ['_c'], ['_c', '_x'])),
+        (('A', 'd'), ([], [], [], ['_c', '_d'], ['_c', '_d', '_x'])),
+        (('A', 'via_setter'), (['_c'], ['_x'], [], [], [])),
+        (('A', 'loop'), ([], [], ['_e', '_f'], [], [])),
+        (('A', 'inplace'), ([], ['_x'], [], [], ['_x'])),
+        (('A', 'tryit'), (['_c', '_d'], ['_x'], [], [], ['_x'])),
+        (('A', 'reader'), ([], [], [], ['_c', '_d'], ['_c', '_d', '_e', '_x'])),
+        (('B', 'set_x'), (['_c', '_d', '_g'], ['_x'], [], [], [])),
+        (('B', 'via_setter'), (['_c', '_d', '_g'], ['_x'], [], [], [])),
+    ]
+    for (cls, name), exp in want:
+        got = row(cls, name)
+        if got != exp:
+            raise TranslateError('effect analysis self-test failed for %s.%s: %r, expected %r' % (cls, name, got, exp))
+    if setter('B', 'x') != (['_c', '_d', '_g'], ['_x'], [], [], []):
+        raise TranslateError('effect analysis self-test failed for the setter B.x')
+    if an.init_attrs('B') != [('_c', True), ('_d', True), ('_e', True), ('_f', True), ('_g', True), ('_x', False)]:
+        raise TranslateError('effect analysis self-test failed for B.__init__: %r' % (an.init_attrs('B'),))
+    if dict(an.fills_of('A')) != {'_c': ['_x'], '_d': ['_c', '_x']}:
+        raise TranslateError('effect analysis self-test failed for the fill read-sets: %r' % (an.fills_of('A'),))
+    try:
+        row('A', 'escape')
+    except TranslateError:
+        pass
+    else:
+        raise TranslateError('effect analysis self-test: an escaping self was not rejected')
